@@ -66,6 +66,9 @@ fn run_case(line: &str, decode: DecodeLevel, stats: bool) -> String {
     }
     let mut reader = Reader::new(framing, Box::new(wire.clone()));
     let mut out: Vec<String> = Vec::new();
+    // every frame and every framing error consumes at least one byte, so a reader that is polled
+    // again after errors can deliver at most this many items; more means it is spinning
+    let max_items = parts[3..].iter().map(|c| c.len() / 2).sum::<usize>() + 8;
     let waker = Waker::noop();
     let mut cx = Context::from_waker(waker);
     loop {
@@ -74,6 +77,11 @@ fn run_case(line: &str, decode: DecodeLevel, stats: bool) -> String {
             let mut fut = std::pin::pin!(reader.next_frame(decode));
             fut.as_mut().poll(&mut cx)
         };
+        if out.len() > max_items {
+            out.truncate(6);
+            out.push("Wedged".to_string());
+            break;
+        }
         match res {
             Poll::Pending => {
                 out.push("Pending".to_string());
@@ -120,7 +128,8 @@ fn run_case(line: &str, decode: DecodeLevel, stats: bool) -> String {
             let delivered = g.delivered.get(i).copied().unwrap_or(0);
             prev_left = Some(off - delivered);
         }
-        res.push_str(&format!(";reads={};compactions={};resets={}", g.offered.len(), compactions, resets));
+        let offered: Vec<String> = g.offered.iter().map(|x| x.to_string()).collect();
+        res.push_str(&format!(";reads={};compactions={};resets={};offered={}", g.offered.len(), compactions, resets, offered.join(",")));
     }
     res
 }
@@ -133,7 +142,7 @@ pub fn main(args: &[String]) -> i32 {
         let l = line.clone();
         match std::panic::catch_unwind(move || run_case(&l, decode, stats)) {
             Ok(s) => println!("{s}"),
-            Err(_) => println!("PANIC"),
+            Err(e) => println!("{}", crate::util::panic_name(&e)),
         }
     }
     0
